@@ -6,6 +6,7 @@ import (
 	"strings"
 
 	"github.com/go-python/gpython/py"
+	_ "github.com/go-python/gpython/stdlib"
 )
 
 // errClass maps a Go error from the py API to "E:<exception class name>"
@@ -76,6 +77,15 @@ var c07Un = map[string]func(a py.Object) (py.Object, error){
 	"neg": py.Neg, "abs": py.Abs, "invert": py.Invert, "bool": py.MakeBool,
 }
 
+var c07Ctx py.Context
+
+func c07Builtin(name string) py.Object {
+	if c07Ctx == nil {
+		c07Ctx = py.NewContext(py.DefaultContextOpts())
+	}
+	return c07Ctx.Store().Builtins.Globals[name]
+}
+
 func init() {
 	handlers["C07"] = func(args []string) handler {
 		return func(line string) (string, string) {
@@ -93,6 +103,26 @@ func init() {
 				if err == nil {
 					res = py.Tuple{q, r}
 				}
+			case "int":
+				// int <base> [text]
+				var base int
+				fmt.Sscanf(f[1], "%d", &base)
+				i := strings.Index(line, "[")
+				txt := line[i+1 : len(line)-1]
+				txt = strings.NewReplacer("\\s", " ", "\\t", "\t", "\\n", "\n").Replace(txt)
+				res, err = py.IntFromString(txt, base)
+			case "render":
+				o := c07Obj(f[2])
+				var sres py.Object
+				if f[1] == "str" {
+					sres, err = py.Str(o)
+				} else {
+					sres, err = py.Call(c07Builtin(f[1]), py.Tuple{o}, nil)
+				}
+				if err != nil {
+					return errClass(err), "-"
+				}
+				return string(sres.(py.String)), ""
 			case "pow":
 				res, err = py.Pow(c07Obj(f[1]), c07Obj(f[2]), c07Obj(f[3]))
 			default:
